@@ -493,6 +493,7 @@ fn round_trip<S: SelGen>(rep: &mut Report, sel: &S, vclass: &str, ctx: &Value) -
                             );
                         } else {
                             rep.count("round-trips-equal", 1);
+                            rep.count(&format!("round-trips-equal:{}", S::NAME), 1);
                         }
                     }
                     Ok(Accepted::First(_)) => {
